@@ -68,10 +68,12 @@ def variant_items():
         prios = [None] if kind == "-" else [None, "P1"]
         for prio in prios:
             for ident in (None, "2024-02-03"):
-                for lead in ("P1", "P15", "o", "x"):
+                for lead in ("P1", "P15", "o", "x", "2024-19-39", "2024-02-30"):
                     pre = kind + (f" {prio}" if prio else "")
                     if lead == "P1" and kind != "-" and prio is None:
                         continue  # that IS the priority of a todo, covered above
+                    if lead.startswith("2024-") and ident:
+                        continue  # one date-shaped first word is enough
                     out.append([pre + " " + (ident + " " if ident else "") + lead + " lookalike first word"])
     # nothing after the prefix on the first line: the whole body is on continuation lines
     for pre in ("-", "o", "o P1", "x"):
@@ -165,7 +167,16 @@ def _judge_state(zdir, day, original: dict, prev: dict | None, step_no: int, had
         return ("index-structural-problem", {"problems": hard})
     d = D.diff_index_vs_files(index, compiled)
     if d:
-        return ("index-differs-from-files:" + d["what"], d)
+        suffix = ""
+        if d["what"] == "body" and d.get("page") in original:
+            # narrow class: the item was written with NOTHING after its prefix on the first
+            # line; the index then holds 'ZID body' where the rewritten file has 'ZID \n  body'
+            files_first = str(d.get("files", "")).split("\n")[0].strip()
+            was_bare = any(re.fullmatch(r"[-ox~<>]( P[0-9])? *", ln) for ln in original[d["page"]].split("\n"))
+            collapsed = str(d.get("index", "")) == re.sub(r" ?\n\s*", " ", str(d.get("files", "")), count=1)
+            if was_bare and files_first == str(d.get("zid")) and collapsed:
+                suffix = ":first-line-holds-only-the-prefix"
+        return ("index-differs-from-files:" + d["what"] + suffix, d)
     # (iii) each file = original + ZIDs on first lines of formerly ZID-less items
     for rel, orig in original.items():
         now = files.get(rel)
